@@ -16,7 +16,7 @@ MANIFEST = dict(
               "+ exhaustive not-ready subsets and all entry points against the real library",
     text="proof: Thm/C13.lean proves resume_equiv (for every block list and every schedule whose not-ready answers go to the block loop, "
          "repeating the call until done gives the messages, result and final scanner state of one uninterrupted call with the same "
-         "partition), the invariant behind it (suspended state = resume point of the uninterrupted run), wrappers_funnel and "
+         "partition; corollary timeout_not_extended_by_resume: the deadline counts from the start of the scan), the invariant behind it (suspended state = resume point of the uninterrupted run), wrappers_funnel and "
          "entry_points_agree (scanner-level entry points after any history = rules-level entry points; uses C10's theorem, i.e. the "
          "code with the C10 fixes); place_operators_use_absolute_offsets + partition_invariant_matches/operators + "
          "block_loop_partition_invariant: every place-dependent string operator is a function of base+offset, and any partition "
@@ -26,7 +26,9 @@ MANIFEST = dict(
          "CALLBACK_ABORT and CALLBACK_ERROR. partial: not-ready answered to a call made by RULE EVALUATION is refuted (kernel-checked witness, "
          "finding F27: the scan succeeds with a different verdict) and stays a known finding. The tie runs every subset of "
          "not-ready positions (2^N, N <= 12) on the real scanner and on the compiled model and compares every outcome; entry points are "
-         "compared pairwise and with the model. Sampled only: buffers, partitions and rule sets are generated.",
+         "compared pairwise and with the model. Timeouts: scanner objects (virtually) older than the timeout must scan like "
+         "yr_rules_scan_mem with the same timeout; iterators taking 400 s per block against 1000 s end with SCAN_TIMEOUT under every "
+         "subset of not-ready answers (virtual time: the harness moves the scanner's stopwatch). Sampled only: buffers, partitions and rule sets are generated.",
     design_ref="DESIGN.md §4 D10, §5 C13",
     note=core.TB + "Same model and parameters as C10. The iterator used follows the convention of tests/util.c: a not-ready call does not "
          "advance; first() resets the position. yr_scanner_scan_mem's 'too slow' pre-check (> 0.2 MB and zero-length atoms) is outside "
@@ -175,6 +177,18 @@ def fullword_task(r):
     return sl.RuleSet(rules, []), [sl.Input(data, parts), sl.Input(data), sl.Input(b"other " + data[::-1])]
 
 
+def timeout_task(r):
+    """an iterator every call of which takes 400 (virtual) seconds, a timeout of 1000 s, at least three non-empty blocks: the third
+    block is refused with ERROR_SCAN_TIMEOUT — also when the scan is interrupted by not-ready blocks and resumed: the deadline counts
+    from the START of the scan, waiting and resuming does not extend it"""
+    data = c10.rand_text(r, False) + b" hello world " + c10.rand_text(r, False)
+    k = r.randint(3, 5)
+    parts = sl.split_parts(r, len(data), k)
+    rules = [dict(ns=0, flags="", strings=[b"hello"], cond=("str", 0)), dict(ns=0, flags="", strings=[], cond=("fseq", len(data))),
+             dict(ns=0, flags="", strings=[b"he"], cond=("cnt", 1, 1))]
+    return sl.RuleSet(rules, []), [sl.Input(data, parts)]
+
+
 def gen_tasks(r, tier):
     tasks = []       # (kind, ruleset, inputs, flags, extra field)
     nep, nblk, nev, npl = (40, 70, 10, 60) if tier == "quick" else (1500, 3000, 350, 2500)
@@ -189,7 +203,11 @@ def gen_tasks(r, tier):
         i = r.randrange(len(ins))
         scripts = ["-"] + r.sample(["a0", "a1", "a2", "a5", "a9", "e0", "e1", "e2", "e3", "e6", "e12"], 3)
         fl = r.choice(c10.ALLFLAGS + [2, 2, 10, 18, 3])     # often SCAN_FLAGS_PROCESS_MEMORY: entry points differ between file and memory mode
-        tasks.append(("ep", ep_rules(r, ins[i]), [ins[i]], fl, "ep=0 cbs=" + ",".join(scripts)))
+        # half of them with a timeout (1000 s, never reached): the harness uses scanner OBJECTS that are (virtually) 2000 s old
+        tasks.append(("ep", ep_rules(r, ins[i]), [ins[i]], fl, "ep=0 cbs=" + ",".join(scripts), r.choice([0, 1000])))
+    for _ in range(12 if tier == "quick" else 400):      # timeouts across interrupted scans
+        rs, ins = timeout_task(r)
+        tasks.append(("timeout", rs, ins, 0, "masks=0:%d st=400" % (len(ins[0].parts) + 1), 1000))
     for _ in range(nblk):          # the whole block loop, <= 6 blocks, full rule sets
         pool = c10.gen_pool(r)
         chained = r.random() < 0.35
@@ -220,7 +238,8 @@ def gen_tasks(r, tier):
 
 
 def task_line(cid, t):
-    kind, rs, ins, flags, extra = t
+    kind, rs, ins, flags, extra = t[:5]
+    timeout = t[5] if len(t) > 5 else 0
     if extra.startswith("masks=") and extra.count(":") >= 2:
         # sw=1: the partition cuts nothing, so it must agree with yr_rules_scan_mem of the same bytes (decided here, not by the model)
         extra += " sw=%d" % (1 if ins[0].same_as_whole(rs) else 0)
@@ -228,7 +247,7 @@ def task_line(cid, t):
             # spec decision for chained strings: exactly the chains whose pieces all lie in one block (independent Python port)
             ce = sorted({(si, o, ln) for base, b, a in ins[0].blocks() if a for o, si, ln in sl.chain_matches(rs, b, base)})
             extra += " ce=" + (",".join("s%d@%d:%d" % x for x in ce) or "-")
-    return sl.case_line(cid, rs, ins, flags, 0, 1000000, []).replace(" ops= ", " ") + " " + extra
+    return sl.case_line(cid, rs, ins, flags, timeout, 1000000, []).replace(" ops= ", " ") + " " + extra
 
 
 def run(tier, replay=None):
@@ -401,6 +420,14 @@ def run_body(chk, lres, b, tier, replay, scratch):
                 chk.violation("whole_%s.json" % cid, dict(base, kind="multi-block scan differs from yr_rules_scan_mem of the same bytes "
                               "(no occurrence, integer read or header is cut by the partition)", implementation=classes[int(cmap[0], 36)],
                               yr_rules_scan_mem=wtrace, partition=l.split(" in=", 1)[1].split(" ", 1)[0].split(";")[0].split("~")[1]))
+                nv += 1; found = True
+        # timeouts: the deadline counts from the start of the scan; 400 s per block against 1000 s: the third block is refused, with
+        # every subset of not-ready answers in between (the comparison with mask 0 is (2) below)
+        if " st=400" in l and " to=1000 " in l:
+            stats["timeout_tasks"] = stats.get("timeout_tasks", 0) + 1
+            if classes[int(cmap[0], 36)] != "rc=SCAN_TIMEOUT" and nv < 10:
+                chk.violation("timeout_%s.json" % cid, dict(base, kind="a scan whose third block is fetched 1200 s after the start, with a timeout of 1000 s, "
+                              "does not end with ERROR_SCAN_TIMEOUT", implementation=classes[int(cmap[0], 36)]))
                 nv += 1; found = True
         # chained strings: exactly the occurrences whose pieces lie in one block are reported (when every rule is reported)
         if " ce=" in l and (" fl=0 " in l or " fl=24 " in l) and nv < 10:
